@@ -3,6 +3,7 @@ import BB.Proofs.CachingLimit
 import BB.Proofs.CachingExistenceWf
 import BB.Proofs.CachingCompositeFaults
 import BB.Proofs.CachingReplicate
+import BB.Model.CachingKey
 /-!
 # Property C17 - read caching, fallback, replicators and existence caches are transparent
 
@@ -697,5 +698,48 @@ example : (compGet (.dedup .localR) exPair 7).2 = .ok 70 ∧
     (fallbackFindMissing (.dedup .localR) exPair [7, 8]).2 = .ok [8] ∧
     (fallbackFindMissing (.dedup .localR) exPair [7, 8]).1.sink.data 7 = some 70 :=
   ⟨rfl, rfl, rfl, rfl, rfl⟩
+
+/-! ## (5) What the existence cache in front of a configured stack is keyed by -/
+
+open BB.Gen.KeyFormat in
+/-- **The cache key separates whatever one of the backends separates.**  For `read_fallback` and
+`mirrored` stacks (key format = generated `Combine` of the two backends' formats): if either
+backend distinguishes instance names, two digests share a cache key only if they are the same
+digest under the same instance name - so a report of presence under one instance name can
+never hide the object under another.  For `read_caching` the same with the slow backend (the
+only one `FindMissing` asks), for a single backend with its own format. -/
+theorem C17_cache_key_separates (sh : Shape) (fa fb inst hash inst' hash' : Nat)
+    (h : match sh with
+      | .localS => fa = keyWithInstance
+      | .caching => fb = keyWithInstance
+      | _ => fa = keyWithInstance ∨ fb = keyWithInstance)
+    (hk : digestKey (stackFormat sh fa fb) inst hash = digestKey (stackFormat sh fa fb) inst' hash') :
+    inst = inst' ∧ hash = hash' := by
+  have hf : stackFormat sh fa fb = keyWithInstance := by
+    cases sh <;> simp only [stackFormat, combine] at * <;> (try exact h)
+    all_goals rcases h with h | h
+    all_goals simp [h]
+  rw [hf] at hk
+  simp only [digestKey, if_true, Prod.mk.injEq, Option.some.injEq] at hk
+  exact hk
+
+open BB.Gen.KeyFormat in
+/-- Conversely a stack announces `keyWithoutInstance` only if every backend it consults for
+`FindMissing` does (for proper formats), i.e. only if no backend can tell instance names apart. -/
+theorem C17_cache_key_flat_only_if_all_flat (sh : Shape) (fa fb : Nat)
+    (ha : fa = keyWithoutInstance ∨ fa = keyWithInstance) (hb : fb = keyWithoutInstance ∨ fb = keyWithInstance)
+    (h : stackFormat sh fa fb = keyWithoutInstance) :
+    match sh with
+    | .localS => fa = keyWithoutInstance
+    | .caching => fb = keyWithoutInstance
+    | _ => fa = keyWithoutInstance ∧ fb = keyWithoutInstance := by
+  cases sh <;> simp only [stackFormat, combine] at h ⊢
+  · exact h
+  · rcases ha with ha | ha <;> rcases hb with hb | hb <;> simp_all [keyWithInstance, keyWithoutInstance]
+  · exact h
+  · rcases ha with ha | ha <;> rcases hb with hb | hb <;> simp_all [keyWithInstance, keyWithoutInstance]
+
+example : stackFormat .fallback 0 1 = 1 ∧ digestKey (stackFormat .fallback 0 1) 7 3 ≠ digestKey (stackFormat .fallback 0 1) 8 3 := by
+  decide
 
 end BB.C17
